@@ -76,7 +76,8 @@ def e2e(V, tier, seed):
     import subprocess
     runs = [["close"], ["reset"], ["shutdown"], ["short"]]
     cuts = [0, 3, 5, 16, 17, 100, 148, 200] if tier == "quick" else list(range(0, 250, 3))
-    runs += [[m, str(c)] for c in cuts for m in (["close", "reset"] if tier == "quick" else ["close", "reset", "shutdown", "short"])]
+    runs += [[m, str(c)] for c in cuts for m in (["close", "reset"] if tier == "quick" else ["close", "reset", "shutdown"])]
+    # (a short header only ends the session where a header is expected: it is run at the frame boundary only)
     fails, seen = [], {}
     for r in runs:
         p = subprocess.run([V.VH, "bstream-e2e"] + r, stdout=subprocess.PIPE, stderr=subprocess.PIPE, text=True, timeout=120)
